@@ -870,7 +870,8 @@ class TaskScenario(ScenarioData):
                 for task, secs in res_scenario_booked.slotTaskUsage.get(self.currentSlotIdx, []):
                     if task == self.property:
                         seconds_booked = secs
-        seconds_before = slot_duration_seconds - seconds_booked
+        # ... on this task's side of the slot (see bookResource)
+        seconds_before = self._slotUsedBefore
         seconds_into_slot = min(seconds_into_slot, seconds_booked)
 
         # Calculate the precise end time, rounded to nearest second
@@ -898,6 +899,14 @@ class TaskScenario(ScenarioData):
         seconds_unused = seconds_booked - seconds_into_slot
         # All members of a team work the same instants: release the tail for each of them
         members = [r for r in self._lastBookedResources if r is not resource] + ([resource] if resource else [])
+        if not forward:
+            # A backward task that finishes inside the slot keeps the part next to the slot's end
+            for member in members:
+                member_scenario = member.data[self.scenarioIdx] if member.data else None
+                if member_scenario:
+                    member_scenario.slotBackSeconds[self.currentSlotIdx] = (
+                        member_scenario.slotBackSeconds.get(self.currentSlotIdx, 0.0) + seconds_into_slot
+                    )
         for member in members if seconds_unused > 0 else []:
             res_scenario = member.data[self.scenarioIdx] if member.data else None
             if res_scenario:
@@ -1509,6 +1518,13 @@ class TaskScenario(ScenarioData):
         # before this task books the remainder
         slot_duration = self.project.attributes.get("scheduleGranularity", 3600)
         used_before = slot_duration - res_scenario.getAvailableSecondsInSlot(slot_idx)
+        # Only what lies on this task's side of the slot shifts it: the end part taken by
+        # backward tasks for a backward task, everything else for a forward task
+        back_before = res_scenario.slotBackSeconds.get(slot_idx, 0.0)
+        if self.property.get("forward", self.scenarioIdx) is False:
+            used_before = back_before
+        else:
+            used_before = used_before - back_before
 
         # Book the resource - returns effort gained (accounts for partial slots)
         result_float: float = res_scenario.book(slot_idx, self.property)
